@@ -24,6 +24,7 @@ func init() {
 		ID: "C05",
 		Rule: "directed: every non-empty subset of events {put, cancel, buffer-close} (Get) / {signal, cancel, spurious broadcast, nobody-broadcasts+deadline} (WaitCond) is fired at every placement relative to the waiter: before the call, after the synchronous miss (buffer.getasync.spawned held), " +
 			"with the waiter held at waitcond.park (between its predicate and cond.Wait), after it parked; oracle: the call returns within 5000 heartbeats with the right result class, WaitCond returns nil only after its predicate returned true under the lock, a failed Get is followed by a successful Get of the same position. " +
+			"get-batch-trim: FixedBufferCleaner(max,target), the buffer pre-filled and read to its end, a Get parked, then ONE batched Put whose forced trim happens before the getter looks again (the buffer may end up exactly as long as before: length says nothing about whether something arrived): the Get returns the first value of the batch if it survived the trim, an error if it was evicted, never stays parked. " +
 			"stress: getters with random cancels racing producers under seeded delays at waitcond.*. non-trivial = the intended window was entered (gate reached before the event fired) or operations overlapped; distinct = distinct (waiter, placement, event order, outcome) signatures",
 		Assumptions: []string{
 			"'promptly' is restated as 'within 5000 heartbeats' (a lost wake-up never recovers, so the bound is not critical)",
@@ -33,6 +34,7 @@ func init() {
 			{Name: "get-directed", N: core.TierN(560, 22400), Batch: 28, Run: c05GetDirected},
 			{Name: "waitcond-directed", N: core.TierN(400, 16000), Batch: 40, Run: c05WaitCondDirected},
 			{Name: "get-stress", N: core.TierN(80, 3200), Batch: 5, Run: c05Stress},
+			{Name: "get-batch-trim", N: core.TierN(240, 9600), Batch: 40, Run: c05BatchTrim},
 		},
 	})
 }
@@ -552,4 +554,82 @@ func c05Stress(c *core.Ctx) {
 		c.Nontrivial()
 	}
 	c.Sig(nCons, total, failed.Load() > 0)
+}
+
+// c05BatchTrim: a parked Get, then a single batched Put that also triggers a forced trim. Depending on the sizes the
+// buffer is afterwards shorter, longer or exactly as long as when the getter last looked; whichever it is, the value
+// at the getter's position has arrived (or has been evicted) and the Get must return.
+func c05BatchTrim(c *core.Ctx) {
+	max := 1 + c.Rng.IntN(6)
+	target := 1 + c.Rng.IntN(max)
+	pre := c.Rng.IntN(max + 1) // values already in the buffer (no trim yet: pre <= max)
+	if c.Rng.IntN(2) == 0 {
+		pre = target // the length a trimmed buffer hovers at
+	}
+	batch := 1 + c.Rng.IntN(max+3)
+	commit := c.Rng.IntN(2) == 0
+	cooldown := core.Pick(c.Rng, 0, 0, time.Millisecond)
+	b := newBuffer(cleanerSpec{Fixed: true, Max: max, Target: target}, cooldown, nil)
+	cons, err := b.NewConsumer()
+	if err != nil {
+		c.Violate("newconsumer-error", "%v", err)
+		return
+	}
+	p := c.NewPerturb(core.PerturbOpts{P: core.Pick(c.Rng, 0, 0.1)})
+	defer p.Stop()
+	desc := fmt.Sprintf("Fixed(max=%d,target=%d) pre=%d batch=%d committed=%v cooldown=%s", max, target, pre, batch, commit, cooldown)
+	for i := 0; i < pre; i++ {
+		b.Put(context.Background(), i)
+	}
+	for i := 0; i < pre; i++ {
+		if _, err := cons.Get(context.Background()); err != nil {
+			c.Violate("get-error", "pre-read %d failed: %v; %s", i, err, desc)
+			return
+		}
+	}
+	if commit && pre > 0 {
+		cons.Commit()
+	}
+	type res struct {
+		v   interface{}
+		err error
+	}
+	ctx, cancel := context.WithCancel(context.Background())
+	defer cancel()
+	out := make(chan res, 1)
+	go func() {
+		v, err := cons.Get(ctx)
+		out <- res{v, err}
+	}()
+	parked := core.WaitUntil(3000, func() bool { return p.Hits("consumer.get.async") >= 1 && p.Hits("waitcond.park") >= 1 })
+	time.Sleep(time.Duration(50+c.Rng.IntN(300))*time.Microsecond + cooldown)
+	vals := make([]interface{}, batch)
+	for i := range vals {
+		vals[i] = pre + i
+	}
+	b.Put(context.Background(), vals...)
+	r, _, got := core.AwaitChan(out, c05Bound)
+	survives := pre+batch <= max || batch <= target // no trim at all, or the trim leaves the getter's position in
+	if !got {
+		c.Violate("get-lost-wakeup", "Get still parked %d heartbeats after a batched Put made its value available (buffer size now %d); %s", c05Bound, b.Size(), desc)
+		c.SetDump(core.DumpAll())
+		cancel()
+		core.AwaitChan(out, 2000)
+	} else if survives {
+		if r.err != nil || r.v != pre {
+			c.Violate("get-wrong-value", "Get returned (%v, %v), want %d; %s", r.v, r.err, pre, desc)
+		}
+	} else if r.err == nil && r.v != pre {
+		// its position was evicted: an error (or, if the getter looked before the trim, the right value), never another value
+		c.Violate("get-wrong-value", "Get returned %v after its position was evicted, want an error (or %d); %s", r.v, pre, desc)
+	}
+	cons.Rollback()
+	cons.Close()
+	b.Close()
+	c.Op("get", 1)
+	c.Op("put", 1)
+	if parked {
+		c.Nontrivial()
+	}
+	c.Sig("batch-trim", max, target, pre, batch, commit, got, r.err != nil)
 }
